@@ -381,9 +381,19 @@ func (b *StatefulBlock[I, O, A]) processAccept(ctx context.Context) error {
 	defer b.vm.acceptedQueueBlocksProcessedWg.Done()
 	verifhook.Point("process-start", b.Input.GetHeight())
 
-	parent, err := b.vm.GetBlock(ctx, b.Parent())
-	if err != nil {
-		return fmt.Errorf("failed to get %s while accepting %s: %w", b.Parent(), b, err)
+	// Blocks are processed in the order they were accepted, so the parent is the last
+	// processed block. Do not look it up by ID: the accepted block cache may have evicted it
+	// while it was waiting in the queue, and the copy read back from the chain index has no
+	// Accepted value.
+	b.vm.metaLock.Lock()
+	parent := b.vm.lastProcessedBlock
+	b.vm.metaLock.Unlock()
+	if parent == nil || parent.ID() != b.Parent() {
+		var err error
+		parent, err = b.vm.GetBlock(ctx, b.Parent())
+		if err != nil {
+			return fmt.Errorf("failed to get %s while accepting %s: %w", b.Parent(), b, err)
+		}
 	}
 	if err := b.accept(ctx, parent.Accepted); err != nil {
 		return err
